@@ -345,7 +345,8 @@ def coq_entry(entry):
 
 def outline_text(coqname, entries, origin):
 	lines = [f'(* REGENERATED from the checked-in {origin} (Python ast) by harness/gens/c03.py -- do not edit *)',
-		'From Symv Require Import Cats.Outline.', 'Open Scope string_scope.', '']
+		'From Coq Require Import String ZArith List.', 'From Symv Require Import Cats.Outline.', 'Import ListNotations.',
+		'Open Scope string_scope.', '']
 	names = []
 	for index, entry in enumerate(entries):
 		lines.append(f'Definition {coqname}_e{index} : entry := {coq_entry(entry)}.')
